@@ -16,7 +16,8 @@ Record tokp := mkTok { tstr : str; tline : N; tcol : N; tcomment : bool }.
 Definition NL : N := 10.
 Definition is_name_char (c : N) : bool := is_alnum c || (c =? 95) || (c =? 36).   (* isalnum, _, $ *)
 
-(* Stream::readChar: CR and CRLF are delivered as LF *)
+(* Stream::readChar: CR and CRLF are delivered as LF (the code does exactly this since /repo 5b5c259: peek-based look-ahead);
+   the block-comment newline erasure applies under multiline only, the directive-line case (9966aa3) needs a hash and is outside the fragment *)
 Fixpoint norm_cr (s : str) : str :=
   match s with
   | [] => []
